@@ -2,7 +2,7 @@
 from ..rules import process
 
 EXPLANATION = (
-    'Static analysis of three necessary conditions for not hanging, on both receive loops: every Process created is retained in a container, every read of the result queue is bounded in time (timeout / non-blocking), and some exit edge of the wait (raise/return/break) depends on a liveness query of the process handles. Does not decide the bound on the time. Also: no join without a timeout on a path that can raise; the completion flags that excuse finished workers are created all-false inside the call (flags kept on the object would excuse a worker that dies during a later call) and set on the marker path. Round 3: no SIGCHLD disposition anywhere in the package; the error raised by the liveness test leaves solve() / optimize(); no one-shot iterator bound before the waiting loop and traversed inside it; the completion flags are recognised also when the filter is hoisted out of the loop.'
+    'Static analysis of three necessary conditions for not hanging, on both receive loops: every Process created is retained in a container, every read of the result queue is bounded in time (timeout / non-blocking), and some exit edge of the wait (raise/return/break) depends on a liveness query of the process handles. Does not decide the bound on the time. Also: no join without a timeout on a path that can raise; the completion flags that excuse finished workers are created all-false inside the call (flags kept on the object would excuse a worker that dies during a later call) and set on the marker path. Round 3: no SIGCHLD disposition anywhere in the package; the error raised by the liveness test leaves solve() / optimize(); no one-shot iterator bound before the waiting loop and traversed inside it; the completion flags are recognised also when the filter is hoisted out of the loop. Round 6: no unbounded acquire() / wait() in the parent on a synchronisation object that is handed to the workers.'
 )
 
 
